@@ -762,6 +762,7 @@ fn oracle_with(case: &Case, strict: bool) -> Report {
     let findings = Findings::load_cached();
     let run_child = || {
         isolated(std::time::Duration::from_secs(case_timeout), || {
+            crate::alloc::set_cap(MEM_LIMIT);
             let t0 = thread_cpu_ms();
             let (res, mem) = measure(|| crate::engine::guard(|| exercise(&bytes)));
             let cpu = thread_cpu_ms() - t0;
@@ -805,8 +806,8 @@ fn oracle_with(case: &Case, strict: bool) -> Report {
                 rep.nontrivial = true;
             }
         }
-        Outcome::Died { refused: Some((size, func)), .. } => {
-            verdict = Some((func.clone(), "memory".into(), format!("memory blow-up: a {} byte file makes {} request {} bytes; the process aborts", bytes.len(), func, size)));
+        Outcome::Died { refused: Some((size, live, func)), .. } => {
+            verdict = Some((func.clone(), "memory".into(), format!("memory out of proportion: a {} byte file makes {} request {} bytes, taking the live heap to {} MiB (limit {} MiB)", bytes.len(), func, size, live >> 20, MEM_LIMIT >> 20)));
         }
         Outcome::Died { signal, refused: None } => {
             verdict = Some(("<crash>".into(), format!("signal {signal}"), format!("a {} byte file kills the process (signal {signal}: stack overflow or abort)", bytes.len())));
@@ -822,6 +823,17 @@ fn oracle_with(case: &Case, strict: bool) -> Report {
     if let Some((func, class, text)) = verdict {
         if survey {
             rep.label(format!("SIG {func} | {class}"));
+            if let Ok(dir) = std::env::var("CVERIF_SAVE_DIR") {
+                // one regression input per distinct signature
+                let name = format!("{dir}/sig-{:016x}.json", crate::engine::hash_str(&format!("{func}|{class}")));
+                if !std::path::Path::new(&name).exists() {
+                    let mut c = case.clone();
+                    c.bytes_hex = Some(bytes.iter().map(|b| format!("{b:02x}")).collect());
+                    c.faults.clear();
+                    let j = serde_json::json!({"property": "C06", "sub": "faults", "message": format!("{func} | {class}: {text}"), "case": c});
+                    let _ = std::fs::write(&name, serde_json::to_string(&j).unwrap());
+                }
+            }
             if class == "hang" || func.starts_with('<') {
                 rep.label(format!("CASE {}", serde_json::to_string(case).unwrap_or_default()));
             }
